@@ -280,6 +280,10 @@ func genDoc(r *rand.Rand, o genOpts) *docSpec {
 				t, al := tA, "left"
 				if p%2 == 1 {
 					t, al = tB, "right"
+					if year%3 == 0 { // a mirrored running title: the same text, outer side of each page
+						t = tA
+						d.feat(name + ".mirrored")
+					}
 				}
 				if align == "center" {
 					al = "center"
